@@ -311,3 +311,12 @@ pub enum ChangedFileKind {
 }
 
 pub type SourceFileEvent = (SourceEventKind, ChangedFileKind);
+
+/// Verification hook: the private event categorisation, as the debouncer callback calls it.
+#[cfg(feature = "isographlabs_isograph_verif")]
+pub fn verif_categorize_and_filter_events(
+    events: &[DebouncedEvent],
+    config: &CompilerConfig,
+) -> Option<Vec<SourceFileEvent>> {
+    categorize_and_filter_events(events, config)
+}
